@@ -152,7 +152,7 @@ fn build_walk(data: &Value, choices: &[u16], neg: &[bool], perturb: u8) -> Walk 
             (3, Some(_), _) => {
                 // not an integer: plain words and the property names other languages answer on arrays and strings
                 // (JavaScript's `length`, `constructor`, `__proto__`; Python / Ruby style `len`, `size`, `first`, `last`)
-                const WORDS: &[&str] = &["x", "length", "__proto__", "constructor", "toString", "size", "len", "count", "first", "last", "keys", "NaN", "Infinity", "null", "true", "-"];
+                const WORDS: &[&str] = &["x", "length", "__proto__", "constructor", "toString", "size", "len", "count", "first", "last", "keys", "NaN", "Infinity", "null", "true", "-", "1:3", "3:1", "-1:1", ":1", "2:", "0:-1", "::", "1..2", "*", "**", "#", "?", "@", "$", "[*]", "[]", "0,1", "0|1"];
                 w.comps[last] = WORDS[choices.iter().map(|c| *c as usize).sum::<usize>() % WORDS.len()].to_string();
                 w.found = None;
             }
